@@ -13,6 +13,9 @@
 (*   by the harness with the solver's tolerance: every interior vertex at   *)
 (*   the weighted mean of its neighbours; all UV triangles keep one         *)
 (*   orientation; boundary vertices where they were put                     *)
+(*   (StretchMinimizingParameterization: boundary and noflip only - its     *)
+(*   weights are re-estimated; ExtendBoundaryUVs: extend - only tips of     *)
+(*   boundary triangles move, by at most maxDist, never towards degeneracy) *)
 (* kind "atlas": [inunit, rects: <<[lo, hi]>> (integer boxes of the charts, *)
 (*   rounded outwards, in 1e-6 units), bary, panic]                         *)
 (*   unit - all UVs in the unit square; disjoint - chart boxes pairwise     *)
@@ -23,6 +26,11 @@
 (*   nearest - the 2-D point that MapFn used for query c is a nearest point *)
 (*   of the triangulation: its squared distance (d8 = 8 * d^2) equals the   *)
 (*   exact minimum over all triangles; inside points map to themselves      *)
+(*   bounds2d - Bounds2D (b2) is the bounding box of the lattice triangles;  *)
+(*   area3d - 4 * Area3D^2 (a4) = 6 * n^2 for n half-cell triangles lifted   *)
+(*   by (x, y, x + 2y); tobounds - ToBounds(nb) maps every UV point p (tb,   *)
+(*   in 1/8 units, same order as tris) affinely: (p' - nmin) * (max - min) = *)
+(*   (p - min) * (nmax - nmin) per axis                                      *)
 (***************************************************************************)
 EXTENDS Integers, Sequences, FiniteSets, TLC, Json
 
@@ -77,6 +85,11 @@ Flat(ss, k) == IF k = 0 THEN << >> ELSE Flat(ss, k - 1) \o ss[k]
 Count(s, x) == Cardinality({i \in 1..Len(s) : s[i] = x})
 Disjoint(a, b) == a.hi[1] < b.lo[1] \/ b.hi[1] < a.lo[1] \/ a.hi[2] < b.lo[2] \/ b.hi[2] < a.lo[2]
 
+\* bounding box of the lattice triangles of a "mapfn" record
+TPts == UNION {{R.tris[i][1], R.tris[i][2], R.tris[i][3]} : i \in 1..Len(R.tris)}
+TMin(a) == CHOOSE x \in {p[a] : p \in TPts} : \A p \in TPts : x <= p[a]
+TMax(a) == CHOOSE x \in {p[a] : p \in TPts} : \A p \in TPts : x >= p[a]
+
 Holds(c) ==
     CASE c = "panic" -> R.panic = ""
       [] R.panic # "" -> TRUE
@@ -91,8 +104,16 @@ Holds(c) ==
       [] R.kind = "atlas" /\ c = "disjoint" -> \A i, j \in 1..Len(R.rects) : i < j => Disjoint(R.rects[i], R.rects[j])
       [] R.kind = "atlas" /\ c = "bary" -> R.bary
       [] R.kind = "mapfn" /\ c = "nearest" -> \A i \in 1..Len(R.qs) : QueryOK(R.qs[i])
+      [] R.kind = "floater" /\ c = "extend" -> R.extend
+      [] R.kind = "mapfn" /\ c = "bounds2d" -> R.bx /\ R.b2 = <<<<TMin(1), TMin(2)>>, <<TMax(1), TMax(2)>>>>
+      [] R.kind = "mapfn" /\ c = "area3d" -> R.bx /\ R.a4 = 6 * Len(R.tris) * Len(R.tris)
+      [] R.kind = "mapfn" /\ c = "tobounds" ->
+            /\ R.bx /\ Len(R.tb) = Len(R.tris)
+            /\ \A i \in 1..Len(R.tris) : \A k \in 1..3 : \A a \in 1..2 :
+                  (R.tb[i][k][a] - 8 * R.nb[1][a]) * (TMax(a) - TMin(a)) = 8 * (R.tris[i][k][a] - TMin(a)) * (R.nb[2][a] - R.nb[1][a])
       [] OTHER -> TRUE
-Clauses == {"panic", "partition", "disc", "limit", "mean", "noflip", "boundary", "unit", "disjoint", "bary", "nearest"}
+Clauses == {"panic", "partition", "disc", "limit", "mean", "noflip", "boundary", "unit", "disjoint", "bary", "nearest",
+            "extend", "bounds2d", "area3d", "tobounds"}
 Fails == {c \in Clauses : ~Holds(c)}
 Init == rec \in 1..Len(Recs) /\ done = FALSE
 Next == /\ ~done /\ done' = TRUE /\ UNCHANGED rec
